@@ -65,6 +65,7 @@ package filtering
 //@   property C17
 //@   modifies *
 //@   loop 1 invariant d != nil && fresh(d) && 0 <= #i && #i <= len(c.SafeFSPatterns) && len(d.safeFSPatterns) == #i
+//@   loop 1 invariant !held(d.engineLock) && !rheld(d.engineLock)
 //@   loop 1 invariant #i == 0 ==> cap(d.safeFSPatterns) == 0
 //@   loop 1 invariant #i > 0 ==> fresh(arrayOf(d.safeFSPatterns))
 //@   loop 1 invariant c.SafeFSPatterns == old(c.SafeFSPatterns) && (forall k int :: 0 <= k && k < len(c.SafeFSPatterns) ==> c.SafeFSPatterns[k] == old(c.SafeFSPatterns[k]))
@@ -75,8 +76,17 @@ package filtering
 // ---- C01 (engines): the block engine is built from the block lists, the allow engine from the allow lists ----
 // (both parameters of initFiltering have the same type, so a swap compiles)
 // (initFiltering(allowFilters, blockFilters) itself builds the block engine from its second argument; that body is not
-// under contract - its postcondition over the two engine ghosts did not discharge - so what is proved is that every
-// caller passes the allow lists first and the block lists second.)
+// under a functional contract - its postcondition over the two engine ghosts did not discharge - so what is proved is
+// that every caller passes the allow lists first and the block lists second.)
+// A successful initFiltering replaces all four engine fields by objects built in this call: an allow engine left over
+// from the previous lists would keep excepting names whose allowlist was removed or disabled.
+//@ func (d *DNSFilter) initFiltering(allowFilters []Filter, blockFilters []Filter) (err error)
+//@   property C01, C02
+//@   callsites-only
+//@   requires !held(d.engineLock) && !rheld(d.engineLock)
+//@   ensures must-replace-the-block-engine: err == nil ==> d.filteringEngine != nil && fresh(d.filteringEngine)
+//@   ensures must-replace-the-allow-engine: err == nil ==> d.filteringEngineAllow != nil && fresh(d.filteringEngineAllow)
+//@   modifies *
 //@ func (d *DNSFilter) setFilters(blockFilters []Filter, allowFilters []Filter, async bool) (r0 error)
 //@   property C01
 //@   callsites-only
